@@ -67,6 +67,43 @@ func runC17(c *core.Ctx) {
 			break
 		}
 		cr, isCall := ex.Tuple.(*ssa.Call)
+		// the verifier may come from a method of the verifier that creates it for the group it is handed
+		// (and, say, loads the aggregated signature): every verifier it answers is Create(param, ...)
+		if isCall && !isInvoke(&cr.Call, "Create") {
+			if h := cr.Call.StaticCallee(); h != nil && h.Blocks != nil && h.Pkg == vs.Pkg {
+				good, any := true, false
+				for _, hr := range core.Returns(h) {
+					if !core.SuccessReturn(hr, nil) {
+						continue
+					}
+					hex, isHex := core.RetOperand(hr, 0).(*ssa.Extract)
+					var hcr *ssa.Call
+					if isHex {
+						hcr, _ = hex.Tuple.(*ssa.Call)
+					}
+					if hcr == nil || !isInvoke(&hcr.Call, "Create") {
+						good = false
+						continue
+					}
+					okArg := false
+					for i, p := range h.Params {
+						if ssa.Value(p) == hcr.Call.Args[0] && i < len(cr.Call.Args) && cr.Call.Args[i] == group {
+							okArg = true
+						}
+					}
+					good, any = good && okArg, true
+				}
+				if good && any {
+					c.Analysed(fname(h))
+					if !strings.Contains(core.ExprKey(call.Call.Args[1]), "GetPubKeysBitmap") {
+						okVerify, why = false, "Verify is not given the header's public keys bitmap"
+						break
+					}
+					okVerify = true
+					continue
+				}
+			}
+		}
 		if !isCall || !isInvoke(&cr.Call, "Create") || cr.Call.Args[0] != group {
 			okVerify, why = false, "the verifier is not created for the consensus group whose size was checked"
 			break
@@ -421,9 +458,31 @@ func c17MultisigCoversBitmap(c *core.Ctx) {
 	c.Analysed(fname(fn))
 	var loop *core.Loop
 	var test *ssa.Call
-	for _, in := range core.CallsIn(fn, func(in ssa.Instruction, cc *ssa.CallCommon) bool {
+	isTest := func(in ssa.Instruction, cc *ssa.CallCommon) bool {
 		return cc.StaticCallee() != nil && cc.StaticCallee().Name() == "isIndexInBitmap"
-	}) {
+	}
+	// the selection loop may live in a method of the signer that Verify calls to obtain the keys it verifies with
+	if len(core.CallsIn(fn, isTest)) == 0 {
+		for _, in := range core.CallsIn(fn, func(_ ssa.Instruction, cc *ssa.CallCommon) bool {
+			h := cc.StaticCallee()
+			return h != nil && h.Blocks != nil && h.Pkg == fn.Pkg && h != fn && len(core.CallsIn(h, isTest)) > 0
+		}) {
+			// its result is what reaches the low-level verification
+			used := false
+			for _, v := range core.CallsIn(fn, func(_ ssa.Instruction, cc *ssa.CallCommon) bool { return isInvoke(cc, "VerifyAggregatedSig") }) {
+				for _, a := range core.CallOf(v).Args {
+					if a == in.(ssa.Value) {
+						used = true
+					}
+				}
+			}
+			if used {
+				fn = core.CallOf(in).StaticCallee()
+				c.Analysed(fname(fn))
+			}
+		}
+	}
+	for _, in := range core.CallsIn(fn, isTest) {
 		test = in.(*ssa.Call)
 		loop = core.InnermostLoop(fn, in.Block())
 	}
